@@ -18,6 +18,16 @@ import (
 func init() {
 	core.Register(&core.Family{Name: "ident", Exec: exec, Classify: classify})
 	core.Checks["C11"] = check
+	schema.C13Identities = SubmoduleIdentities
+}
+
+// SubmoduleIdentities: the programs of the quick space that place an identity in the submodule, under C13 (an included
+// submodule contributes its identities as if they were written in the module: directly included, reached only through
+// another submodule, and next to two sibling submodules - the three renderings of every program)
+func SubmoduleIdentities(r *core.Run) {
+	r.DirectionA("ident", core.TLCOpts{Module: "MCI_quick", Cfg: "MCI_quick.cfg", Workers: 12, Timeout: 0, HeapGB: 16}, func(i int64, body string) bool {
+		return strings.Contains(body, `"home":"as"`)
+	})
 }
 
 type key [2]string
